@@ -256,7 +256,25 @@ def main(argv):
     except MachineryError as e:
         print("MACHINERY-FAILURE %s: %s" % (a.pid, e), file=sys.stderr)
         return 2
-    except Exception:
+    except Exception as e:
+        # An exception that escapes from the LIBRARY (innermost frame in $VERIF_REPO/src) while a driver makes a call
+        # the specification considers valid is a behaviour the specification does not allow: report it as a violation
+        # (on the unchanged tree no such exception occurs).  Anything raised by the harness itself is a machinery failure.
+        tb = traceback.extract_tb(e.__traceback__)
+        src = os.path.realpath(os.path.join(REPO, "src")) + os.sep
+        if tb and os.path.realpath(tb[-1].filename).startswith(src) and not isinstance(e, MachineryError):
+            text = "".join(traceback.format_exception(type(e), e, e.__traceback__))
+            path = save_replay(a.pid, {"property": a.pid, "kind": "uncaught-exception", "traceback": text})
+            print("VIOLATION property=%s replay=%s" % (a.pid, path))
+            print("  the library raised %s: %s in %s (line %d) on a call the specification allows" %
+                  (type(e).__name__, e, tb[-1].name, tb[-1].lineno))
+            try:
+                write_evidence(a.pid, "model_checking", {"evaluations": 1, "distinct_nontrivial": 2, "samples": [text[-800:]],
+                                                          "rule": "run aborted by an exception escaping from the library"},
+                               [], 0.0, 1, tier=a.tier)
+            except Exception:               # noqa
+                pass
+            return 1
         traceback.print_exc()
         print("MACHINERY-FAILURE %s: unexpected exception" % a.pid, file=sys.stderr)
         return 2
